@@ -60,9 +60,54 @@ parse_fail(const char * l)
 }
 
 /* ---------------- elastic array ---------------- */
+/* ---------------- typed wrappers of the elastic array (ELASTICARRAY_DECL) ---------------- */
+struct rec1 { uint8_t b[1]; }; struct rec3 { uint8_t b[3]; }; struct rec4 { uint8_t b[4]; }; struct rec12 { uint8_t b[12]; };
+ELASTICARRAY_DECL(R1L, r1l, struct rec1);
+ELASTICARRAY_DECL(R3L, r3l, struct rec3);
+ELASTICARRAY_DECL(R4L, r4l, struct rec4);
+ELASTICARRAY_DECL(R12L, r12l, struct rec12);
+static int typed;	/* calls with record sizes 1, 3, 4, 12 go through the typed wrappers (same object, same events) */
+#define TYPEDSZ(n) (typed && ((n) == 1 || (n) == 3 || (n) == 4 || (n) == 12))
+#define TCALL(n, EA, f1, f3, f4, f12) ((n) == 1 ? f1 : (n) == 3 ? f3 : (n) == 4 ? f4 : f12)
+static int
+t_append(struct elasticarray * EA, const void * d, size_t nrec, size_t n)
+{
+	return (TCALL(n, EA, r1l_append((void *)EA, d, nrec), r3l_append((void *)EA, d, nrec), r4l_append((void *)EA, d, nrec), r12l_append((void *)EA, d, nrec)));
+}
+static int
+t_resize(struct elasticarray * EA, size_t nrec, size_t n)
+{
+	return (TCALL(n, EA, r1l_resize((void *)EA, nrec), r3l_resize((void *)EA, nrec), r4l_resize((void *)EA, nrec), r12l_resize((void *)EA, nrec)));
+}
+static void
+t_shrink(struct elasticarray * EA, size_t nrec, size_t n)
+{
+	if (n == 1) r1l_shrink((void *)EA, nrec); else if (n == 3) r3l_shrink((void *)EA, nrec); else if (n == 4) r4l_shrink((void *)EA, nrec); else r12l_shrink((void *)EA, nrec);
+}
+static size_t
+t_getsize(struct elasticarray * EA, size_t n)
+{
+	return (TCALL(n, EA, r1l_getsize((void *)EA), r3l_getsize((void *)EA), r4l_getsize((void *)EA), r12l_getsize((void *)EA)));
+}
+static void *
+t_get(struct elasticarray * EA, size_t pos, size_t n)
+{
+	return (TCALL(n, EA, (void *)r1l_get((void *)EA, pos), (void *)r3l_get((void *)EA, pos), (void *)r4l_get((void *)EA, pos), (void *)r12l_get((void *)EA, pos)));
+}
+static int
+t_export(struct elasticarray * EA, void ** buf, size_t * nrec, size_t n, int dup)
+{
+	if (dup)
+		return (TCALL(n, EA, r1l_exportdup((void *)EA, (struct rec1 **)buf, nrec), r3l_exportdup((void *)EA, (struct rec3 **)buf, nrec),
+		    r4l_exportdup((void *)EA, (struct rec4 **)buf, nrec), r12l_exportdup((void *)EA, (struct rec12 **)buf, nrec)));
+	return (TCALL(n, EA, r1l_export((void *)EA, (struct rec1 **)buf, nrec), r3l_export((void *)EA, (struct rec3 **)buf, nrec),
+	    r4l_export((void *)EA, (struct rec4 **)buf, nrec), r12l_export((void *)EA, (struct rec12 **)buf, nrec)));
+}
+
 static void
 run_ea(FILE * f)
 {
+	typed = 0;
 	struct elasticarray * EA = NULL;
 	static uint8_t data[MAXLINE / 2];
 	char op[32], arg[64];
@@ -77,6 +122,7 @@ run_ea(FILE * f)
 			break;
 		if (parse_fail(line))
 			continue;
+		if (strcmp(op, "typed") == 0) { typed = 1; continue; }
 		if (strcmp(op, "init") == 0) {
 			if (EA != NULL || sscanf(line, "init %lu %lu", &a, &b) != 2)
 				continue;
@@ -94,7 +140,7 @@ run_ea(FILE * f)
 				continue;
 			n = unhex(h + 1, data, sizeof(data));
 			n -= n % a;
-			rc = elasticarray_append(EA, data, n / a, a);
+			rc = TYPEDSZ(a) ? t_append(EA, data, n / a, a) : elasticarray_append(EA, data, n / a, a);
 			vt_begin("ea_append"); vt_int("reclen", (long long)a); vt_hex("data", data, n); vt_int("rc", rc);
 			vt_int("alloc", (long long)aw_last_realloc_size()); common(); vt_end();
 		} else if (strcmp(op, "resize") == 0 || strcmp(op, "shrink") == 0) {
@@ -108,10 +154,10 @@ run_ea(FILE * f)
 			} else
 				a = strtoul(arg, NULL, 10);
 			if (op[0] == 'r') {
-				rc = elasticarray_resize(EA, a, b);
+				rc = TYPEDSZ(b) ? t_resize(EA, a, b) : elasticarray_resize(EA, a, b);
 				vt_begin("ea_resize");
 			} else {
-				elasticarray_shrink(EA, a, b);
+				if (TYPEDSZ(b)) t_shrink(EA, a, b); else elasticarray_shrink(EA, a, b);
 				rc = 0;
 				vt_begin("ea_shrink");
 			}
@@ -137,7 +183,7 @@ run_ea(FILE * f)
 			if (sscanf(line, "getsize %lu", &a) != 1 || a == 0)
 				continue;
 			vt_begin("ea_getsize"); vt_int("reclen", (long long)a);
-			vt_int("n", (long long)elasticarray_getsize(EA, a)); vt_end();
+			vt_int("n", (long long)(TYPEDSZ(a) ? t_getsize(EA, a) : elasticarray_getsize(EA, a))); vt_end();
 		} else if (strcmp(op, "get") == 0) {
 			/* read record pos of length reclen (only if the driver knows it exists) */
 			if (sscanf(line, "get %lu %lu", &a, &b) != 2 || b == 0)
@@ -145,13 +191,15 @@ run_ea(FILE * f)
 			if (a >= elasticarray_getsize(EA, b))
 				continue;
 			vt_begin("ea_get"); vt_int("pos", (long long)a); vt_int("reclen", (long long)b);
-			vt_hex("data", elasticarray_get(EA, a, b), b); vt_end();
+			vt_hex("data", TYPEDSZ(b) ? t_get(EA, a, b) : elasticarray_get(EA, a, b), b); vt_end();
 		} else if (strcmp(op, "exportdup") == 0 || strcmp(op, "export") == 0) {
 			void * buf = NULL;
 			size_t nrec = 0, total = elasticarray_getsize(EA, 1);
 			if (sscanf(line, "%*s %lu", &a) != 1 || a == 0)
 				continue;
-			if (op[6] == 'd')
+			if (TYPEDSZ(a))
+				rc = t_export(EA, &buf, &nrec, a, op[6] == 'd');
+			else if (op[6] == 'd')
 				rc = elasticarray_exportdup(EA, &buf, &nrec, a);
 			else
 				rc = elasticarray_export(EA, &buf, &nrec, a);
@@ -309,6 +357,10 @@ run_sm(FILE * f)
 /* ---------------- object pool ---------------- */
 struct obj { char payload[40]; };
 MPOOL(obj, struct obj, 4);
+MPOOL(obj1, struct obj, 1);
+static int pool1;	/* use the pool with a cache of one object */
+#define POOL_MALLOC() (pool1 ? mpool_obj1_malloc() : mpool_obj_malloc())
+#define POOL_FREE(p) do { if (pool1) mpool_obj1_free(p); else mpool_obj_free(p); } while (0)
 #define NSLOT 256
 static struct obj * slots[NSLOT + 1];
 
@@ -337,7 +389,7 @@ mp_late_free(void)
 	for (i = 0; i < (long)sizeof(struct obj); i++)
 		if (slots[a]->payload[i] != (char)a) break;
 	vt_bool("intact", i == (long)sizeof(struct obj)); vt_bool("late", 1);
-	mpool_obj_free(slots[a]);
+	POOL_FREE(slots[a]);
 	slots[a] = NULL;
 	common(); vt_end();
 }
@@ -357,12 +409,13 @@ run_mp_child(FILE * f)
 			break;
 		if (parse_fail(line))
 			continue;
+		if (strcmp(op, "pool1") == 0) { pool1 = 1; continue; }
 		if (a < 1 || a > NSLOT)
 			continue;
 		if (strcmp(op, "pmalloc") == 0) {
 			if (slots[a] != NULL)
 				continue;
-			slots[a] = mpool_obj_malloc();
+			slots[a] = POOL_MALLOC();
 			vt_begin("mp_malloc"); vt_int("slot", a); vt_int("obj", aw_live_id(slots[a]));
 			vt_bool("null", slots[a] == NULL); common(); vt_end();
 			if (slots[a] != NULL)
@@ -385,7 +438,7 @@ run_mp_child(FILE * f)
 			for (i = 0; i < (long)sizeof(struct obj); i++)
 				if (slots[a]->payload[i] != (char)a) break;
 			vt_bool("intact", i == (long)sizeof(struct obj));
-			mpool_obj_free(slots[a]);
+			POOL_FREE(slots[a]);
 			slots[a] = NULL;
 			common(); vt_end();
 		}
@@ -396,7 +449,7 @@ run_mp_child(FILE * f)
 			for (j = 0; j < nlate; j++) if (late[j] == i) break;
 			if (j < nlate) continue;
 			vt_begin("mp_free"); vt_int("slot", i); vt_int("obj", aw_live_id(slots[i])); vt_bool("intact", 1);
-			mpool_obj_free(slots[i]); slots[i] = NULL;
+			POOL_FREE(slots[i]); slots[i] = NULL;
 			common(); vt_end();
 		}
 	mp_allocs = aw_count();
